@@ -314,6 +314,25 @@ func (d *decoy) host() string { return fmt.Sprintf("127.0.0.1:%d", d.port) }
 
 // ---- shared helpers ----
 
+// clientIP: client ci dials from its own loopback address, so that the proxy host
+// (127.0.0.1) and the clients are told apart in events and at the backends.
+func clientIP(ci int) net.IP { return net.IPv4(127, 0, 0, byte(3+ci)) }
+
+func dialTCPFrom(ci int, addr string) (net.Conn, error) {
+	d := net.Dialer{Timeout: 5 * time.Second, LocalAddr: &net.TCPAddr{IP: clientIP(ci)}}
+	return d.Dial("tcp", addr)
+}
+
+// fromProxyHost checks the peer addresses a backend saw.
+func fromProxyHost(remotes []string) error {
+	for _, ra := range remotes {
+		if !strings.HasPrefix(ra, "127.0.0.1:") {
+			return fmt.Errorf("backend saw a connection from %s, not from the proxy host 127.0.0.1 (clients dial from 127.0.0.3..5)", ra)
+		}
+	}
+	return nil
+}
+
 // bodySpec describes a byte string compactly (replay files stay small): the bytes are
 // a fixed function of (Kind, Seed, Len).
 type bodySpec struct {
